@@ -96,6 +96,16 @@ def ev(fn, n, env, calls=None):
                 raise CannotEval('mod0')
             r = abs(a) % abs(b)
             return r if a >= 0 else -r
+        if op == '&':
+            return a & b
+        if op == '|':
+            return a | b
+        if op == '^':
+            return a ^ b
+        if op == '<<':
+            return a << b
+        if op == '>>':
+            return a >> b
         if op == '<':
             return a < b
         if op == '<=':
